@@ -11,6 +11,16 @@ Theorem C20_ident : forall c n tail, n < 64 ->
   read_identifier (write_identifier c n ++ tail) = Ok (c, n, tail).
 Proof. exact read_identifier_write. Qed.
 
+(* exactly: a single identifier octet carries tag numbers below 64 and no others (the reader never
+   returns a number >= 64, so a larger tag number cannot round-trip; no generated type has one) *)
+Theorem C20_ident_exact : forall c n tail,
+  read_identifier (write_identifier c n ++ tail) = Ok (c, n, tail) <-> n < 64.
+Proof. exact read_identifier_write_iff. Qed.
+
+Theorem C20_ident_value_bound : forall inp c n rest,
+  read_identifier inp = Ok (c, n, rest) -> n < 64.
+Proof. exact read_identifier_value_lt. Qed.
+
 Theorem C20_boolean : forall c tag b tail, tag < 64 ->
   r_boolean tag (w_boolean c tag b ++ tail) = Ok (b, tail).
 Proof. exact r_boolean_w_boolean. Qed.
@@ -36,6 +46,8 @@ Proof. vm_compute. repeat split; congruence. Qed.
 
 Print Assumptions C20_length.
 Print Assumptions C20_ident.
+Print Assumptions C20_ident_exact.
+Print Assumptions C20_ident_value_bound.
 Print Assumptions C20_boolean.
 Print Assumptions C20_boolean_nonzero.
 Print Assumptions C20_int.
